@@ -225,3 +225,70 @@ prefetch = function(
   bindings=PFB, props=('C20',))
 prefetch.yields = DevItem
 prefetch.locals = {'queue': SeqOf(DevItem)}
+
+# ---- axes_scan: transpose_to_front / transpose_from_front applied to a whole (sub)tree ----------------------------------
+# every leaf of xs is transposed with ITS OWN rank: a negative axis is resolved per leaf
+AxisSpec = Union('ScanAxis', [Ctor('ABroadcast', [], pytypes=('_Broadcast',)), Ctor('AInt', [('i', INT)], pytypes=('int',), payload='i')])
+TreeT = opaque('PyTreeOfArrays', is_str=False)
+leaves_of = UFn('tree_leaves_arrays', [TreeT], SeqOf(Arr), 'jax.tree_util.tree_leaves(xs)')
+
+
+def _tree_map_generic(ex, a, kw):
+  """jax.tree_util.tree_map(f, xs): f is applied to every leaf; modelled by applying it to ONE arbitrary leaf
+  (recorded as ghost('leaf')), so whatever the contract says about that application holds for every leaf"""
+  leaf = ex.fresh(Arr, 'any_leaf')
+  ex.ghost['leaf'] = leaf
+  ex.call_value(a[0], [leaf], {})
+  return ex.fresh(TreeT, 'mapped_tree')
+
+
+def _moveaxis(ex, a, kw):
+  """jnp.moveaxis(x, src, 0): the transpose with permutation (src, the other axes in order); recorded like transpose"""
+  x = a[0]
+  src = ex.coerce(a[1], INT).t
+  dst = ex.coerce(a[2], INT).t
+  n = z3.Function('attr!NDArray.ndim', Arr.z3(), z3.IntSort())(ex.deref(x).t)
+  ex.oblige(dst == 0, 'safety:modelled-moveaxis-to-front')
+  ex.oblige(z3.And(src >= -n, src < n), 'safety:axis-in-range')
+  ps = z3.If(src < 0, src + n, src)
+  r = IntSeq.const('moveaxis_perm')
+  i = z3.Int(fresh('i'))
+  ex.assume(IntSeq.len(r) == n)
+  ex.assume(IntSeq.get(r, 0) == src)
+  ex.assume(z3.ForAll([i], z3.Implies(z3.And(i >= 1, i < n), IntSeq.get(r, i) == z3.If(i - 1 < ps, i - 1, i))))
+  ex.ghost['perm'] = SV(IntSeq, r)
+  ex.ghost['transposed'] = x
+  return ex.fresh(Arr, 'moved')
+
+
+TB2 = dict(NPB)
+TB2.update({
+  'broadcast': SV(AxisSpec, AxisSpec.mk('ABroadcast')),
+  'jax.tree_util.tree_map': Handler('jax.tree_util.tree_map', _tree_map_generic, 'tree_map(f, xs): f applied to an arbitrary leaf'),
+  'jax.tree_util.tree_leaves': leaves_of,
+  'jnp.moveaxis': Handler('jnp.moveaxis', _moveaxis, 'moveaxis(x, src, 0) as the corresponding transpose'),
+})
+LND = "ghost('leaf').ndim"
+LPAX = NORM('ax.i', LND)
+LEAF_RANGE = "forall(NDArray, lambda x: -x.ndim <= ax.i and ax.i < x.ndim)"
+to_front_tree = function(
+  A + '::scan.<locals>.transpose_to_front', params=[('ax', AxisSpec), ('xs', TreeT)], returns=ANY,
+  requires=[f"implies(is_(ax, 'AInt'), {LEAF_RANGE})"],
+  ensures=[
+    # for EVERY leaf: the axis moved to the front is `ax` resolved against that leaf's own rank
+    f"implies(is_(ax, 'AInt') and ax.i != 0, len(ghost('perm')) == {LND} and "
+    f"(ghost('perm')[0] + {LND} if ghost('perm')[0] < 0 else ghost('perm')[0]) == {LPAX} and "
+    f"forall(Int, lambda i: implies(1 <= i and i < {LND}, ghost('perm')[i] == (i - 1 if i - 1 < {LPAX} else i))))",
+  ],
+  bindings=TB2, props=('C06',))
+to_front_tree.locals = {'perm': IntSeq}
+
+from_front_tree = function(
+  A + '::scan.<locals>.transpose_from_front', params=[('ax', AxisSpec), ('xs', TreeT)], returns=ANY,
+  requires=[f"implies(is_(ax, 'AInt'), {LEAF_RANGE})"],
+  ensures=[
+    f"implies(is_(ax, 'AInt') and ax.i != 0, len(ghost('perm')) == {LND} and ghost('perm')[{LPAX}] == 0 and "
+    f"forall(Int, lambda i: implies(1 <= i and i < {LND}, ghost('perm')[(i - 1 if i - 1 < {LPAX} else i)] == i)))",
+  ],
+  bindings=TB2, props=('C06',))
+from_front_tree.locals = {'perm': IntSeq}
